@@ -22,7 +22,7 @@ CLAIMS = {
                 technique="exhaustive enumeration of operation sequences up to a depth on the real code, memory-diff invariant in every reached state"),
     "C12": dict(engine=E3, ref="DESIGN.md §5 C12",
                 text="in every state reached by every install history up to the depth, the set of live trampoline mappings handed out by mmap equals the set of live installations; every munmap is checked against the set of injector-owned mappings (address, page-rounded length); plus a long run of mixed cycles compared through /proc/self/maps",
-                note="mappings are observed at the crate's mmap/munmap interface (interposed libc) and, for the cycle run, in /proc/self/maps",
+                note="mappings are observed at the crate's mmap/munmap interface (interposed libc); the cycle run (20 000 quick / 100 000 thorough mixed lifetimes, every third ending by unwinding) compares the executable anonymous mappings in /proc/self/maps before and after, on the mounted and on the unmodified crate",
                 technique="exhaustive enumeration of operation sequences with an explicit resource-state invariant (owned mappings = live installations) in every state"),
     "C17": dict(engine=E3, ref="DESIGN.md §5 C17",
                 text="for every API call of every install history up to the depth, every code byte that changed (observed at every OS call of the crate and at API entry/return) must be covered by a later flush request that saw its final value",
@@ -37,7 +37,7 @@ CLAIMS.update({
                 technique="exhaustive enumeration of a structured address/OS-answer domain on the real installer with an OS model; independent decoder + real execution as oracle"),
     "C07": dict(engine=E3, ref="DESIGN.md §5 C07",
                 text="every sequence of begin / matching call / non-matching call / scope end / panic / outside call up to the depth, all lifetimes of a history evaluating the same fake!(…, times: N) source line, N in {0,1,2}, each history from a pristine process image; every lifetime must get the verdict the reference model gives a first lifetime",
-                note="bounded by depth and N; one when+returns+times arm (the arm matrix is C08)",
+                note="bounded by depth and N; the deep exploration uses one when+returns+times arm; every `times` arm of the safe/unsafe fn kinds is additionally re-evaluated by 2-3 lifetimes from one source line (generated programs, against the unmodified crate)",
                 technique="exhaustive enumeration of operation sequences up to a depth on the real code (fork per history) against a reference model"),
     "C11": dict(engine=E1, ref="DESIGN.md §5 C11",
                 text="the real allocator + installer (x86-64 and AArch64-Linux, page sizes 4/16/64 KiB) run against a model of the neighbourhood: empty, full, full except one free page at each listed offset incl. both window ends and just outside, and every single (thorough: double) deviation of the kernel's answer; success must branch to exactly the kept mapping, failure must be a panic with the function untouched and every obtained mapping given back",
@@ -64,7 +64,7 @@ CLAIMS.update({
                 technique="stateless DFS over thread schedules with iterative preemption bounding (CHESS style) on the real code"),
     "C05": dict(engine=E3, ref="DESIGN.md §5 C05",
                 text="every operation sequence up to the depth over begin / calls caught inside or propagating out of the scope / scope end / user panic / outside call with 0-2 pending call-count expectations (fork per history: exit status decides abort vs panic, exactly one panic payload, restored bytes, lock reusable by the next lifetime); plus every schedule of the C04 harness in which a holder lets go by panicking while another thread waits",
-                note="library-raised installation failures (signature mismatch, null, boolean refusal, allocation exhaustion, mprotect failure) are explored by the refusal/fault histories listed in evidence when present",
+                note="library-raised installation failures (signature mismatch, null pointer, boolean refusal, allocation exhaustion, one-shot and persistent mprotect failure) are injected at every position of every install history up to the depth (evidence.coverage.refusal_histories); after every history a fresh thread must obtain and use a new injector within 10 s",
                 technique="exhaustive enumeration of operation sequences with injected panics (crash points) on the real code, fork isolation; schedule exploration for the concurrent part"),
     "C06": dict(engine=E3, ref="DESIGN.md §5 C06",
                 text="sequential: every sequence of matching / non-matching calls (caught or propagating), scope ends and panics up to the depth for N in 0..3 against a reference model; concurrent: k <= N+2 matching calls split over 1-3 caller threads under every schedule (3 callers: preemption-bounded), and 8/16 identical single-call threads with symmetry reduction; exactly min(k,N) admissions, scope-exit verdict and message in every schedule",
